@@ -20,7 +20,7 @@ COLS = ['a', 'b', 'c', 'd', 'e', 'f']
 CELLS = [None, 0, 1, 2, -3, 2.0, 0.5, float('nan'), '', 'x', 'yy', datetime.datetime(2020, 2, 29), datetime.datetime(2021, 1, 1, 12, 30)]
 POOL = 6
 FUNCS = ['is_none', 'typename', 'rep', 'str2', 'const7', 'ident']
-OPS = ['new_records', 'new_columns', 'new_rows', 'new_empty', 'setitem', 'delitem', 'update', 'row', 'col', 'cols_tuple', 'slice',
+OPS = ['new_records', 'new_columns', 'new_rows', 'new_empty', 'setitem', 'setitem_from', 'update_from', 'delitem', 'update', 'row', 'col', 'cols_tuple', 'slice',
        'mask', 'take', 'project', 'derive', 'rename', 'do', 'minus', 'copy', 'add', 'iadd', 'add_record', 'add_zero', 'concat', 'sum_rows',
        'inc', 'exc', 'inc_fn', 'inc_all', 'setitem_reject', 'new_reject', 'update_reject']
 
@@ -135,7 +135,7 @@ def generate(st):
         'cols': sorted(sw.sample(COLS, sw.randint(2, 6))),
         'cells': sorted(sw.sample(range(len(CELLS)), sw.randint(3, len(CELLS)))),
         'faulty': sw.random() < 0.6,
-        'off': sorted(sw.sample(OPS[4:29], sw.randint(0, 8))),
+        'off': sorted(sw.sample(OPS[4:31], sw.randint(0, 8))),
     }
     cells = [CELLS[i] for i in cfg['cells']]
     cols = cfg['cols']
@@ -258,6 +258,18 @@ def _gen_op(o, g, f, cfg, cells, cols, models, rows_n, cell, spec_for):
             return None
         bad = g.choice([x for x in (0, 2, 3, n + 1, n + 2, max(n - 1, 0)) if x != n and x != 1])
         return {'op': 'setitem_reject', 't': t, 'col': c, 'val': {g.choice(['list', 'tuple']): [enc(cell()) for _ in range(bad)]}, 'how': how}
+    if o == 'setitem_from':
+        # d[c] = other[c2]: the value handed over IS the column list of another live table
+        cands = [(u, c2) for u, mu in enumerate(models) for c2 in mu.cols if mu.n() in (n, 1) or not m.cols]
+        if not cands:
+            return None
+        u, c2 = g.choice(cands)
+        return {'op': o, 't': t, 'col': g.choice(cols), 'u': u, 'ucol': c2}
+    if o == 'update_from':
+        cands = [u for u, mu in enumerate(models) if mu.cols and (mu.n() in (n, 1) or not m.cols)]
+        if not cands:
+            return None
+        return {'op': o, 't': t, 'u': g.choice(cands), 'via': g.choice(['update', 'call'])}
     if o == 'delitem':
         if not m.cols:
             return None
@@ -512,6 +524,39 @@ def model_apply(op, models):
             return ('skip',)
         for r, v in zip(new.rows, col):
             r[op['col']] = v
+        return ('mutate', op['t'])
+    if o in ('setitem_from', 'update_from'):
+        u = get(op.get('u'))
+        if u is None:
+            return ('skip',)
+        if o == 'setitem_from':
+            if op['ucol'] not in u.cols:
+                return ('skip',)
+            items = [(op['col'], u.column(op['ucol']))]
+            target = m
+        else:
+            if not u.cols:
+                return ('skip',)
+            items = [(c, u.column(c)) for c in u.cols]
+            target = m if op.get('via') != 'call' else m.copy()
+        trial = target.copy()
+        for c, vals in items:
+            col = _broadcast(list(vals), trial.n(), bool(trial.cols))
+            if col is None:
+                return ('skip',)
+            if c not in trial.cols:
+                trial.cols.append(c)
+            if not trial.rows and len(col) and len(trial.cols) == 1:
+                trial.rows = [{} for _ in col]
+            if len(trial.rows) != len(col):
+                return ('skip',)
+            for r, v in zip(trial.rows, col):
+                r[c] = v
+        if o == 'update_from' and op.get('via') == 'call':
+            return ('table', trial)           # d(**other): a new table
+        if u is m and o == 'update_from':
+            pass
+        m.cols, m.rows = trial.cols, trial.rows
         return ('mutate', op['t'])
     if o == 'delitem':
         dcols = op['col'] if isinstance(op['col'], list) else [op['col']]
@@ -1019,6 +1064,14 @@ def real_apply(op, reals, dictable):
         else:
             d[op['col']] = v
         return None
+    if o == 'setitem_from':
+        d[op['col']] = reals[op['u']][op['ucol']]
+        return None
+    if o == 'update_from':
+        if op.get('via') == 'call':
+            return d(**reals[op['u']])
+        d.update(reals[op['u']])
+        return None
     if o == 'delitem':
         if op.get('how') == 'attr':
             delattr(d, op['col'])
@@ -1139,7 +1192,7 @@ def signature(trace, violation):
 PROBES = ['empty-result-keeps-columns', 'broadcast-to-0-rows', 'scalar-broadcast', 'concat-with-disjoint-columns', 'concat-fills-absent-with-None',
           'assignment-on-columnless-table', 'assignment-on-0-row-table', 'operand-shares-list-with-result', 'rejected-assignment',
           'result-is-operand(accepted no-op)']
-TIERS = {'quick': {'runs': 25000, 'wallcap': 50}, 'thorough': {'runs': 1200000, 'wallcap': 800}}
+TIERS = {'quick': {'runs': 20000, 'wallcap': 50}, 'thorough': {'runs': 1200000, 'wallcap': 800}}
 COMPONENTS = {
     'real': ['pyg_base.dictable (constructor, __setitem__/__delitem__/update, __getitem__ in all its forms, __call__, rename/relabel, do, __sub__, copy, '
              '__add__/concat, inc/exc)', 'pyg_base._zip lens/zipper', 'pyg_base Dict / dictattr base classes', 'pyg_base.kwargs_support (callable filters)'],
